@@ -519,6 +519,7 @@ pub fn c08_inputs(thorough: bool) -> Vec<Spec> {
 	for k in [Kind::Boxed, Kind::Ref] {
 		for a in perms(3) {
 			out.push(Spec::Native(Native::Arr3(k, [a[0] + 1, a[1] + 1, a[2] + 1])));
+			out.push(Spec::Native(Native::Arr3Unchecked(k, [a[0] + 2, a[1] + 2, a[2] + 2])));
 			out.push(Spec::Native(Native::Slice(k, vec![a[0], a[1] + 2, a[2]].into_iter().collect::<BTreeSet<_>>().into_iter().collect::<Vec<_>>().into_iter().rev().collect())));
 		}
 	}
@@ -540,6 +541,7 @@ pub fn c08_inputs(thorough: bool) -> Vec<Spec> {
 	for k in [Kind::Boxed, Kind::Ref] {
 		for n in 2..=3 {
 			out.push(Spec::Native(Native::OwnedDescIn(k, n)));
+			out.push(Spec::Native(Native::OwnedDescRef(k, n)));
 		}
 	}
 	out.push(Spec::Native(Native::VecsFromRef));
